@@ -62,3 +62,84 @@ def genVisCases (tier : String) (seed : Nat) (tagp : String) : Array Case := Id.
   pure out
 
 end Drv
+
+namespace Drv
+open Lean IGVerif
+
+/-! ### oracles on the implementation's JSON (C09, C17, C20) -/
+
+/-- (component, name, level) of every leaf value object of a visual document, in order -/
+partial def jsonEntries (j : Json) : List (String × String × Nat) :=
+  let kids := match j.getObjVal? "children" with | .ok (.arr a) => a.toList | _ => []
+  let self :=
+    match j.getObjValAs? String "comp", j.getObjValAs? String "name", j.getObjValAs? Nat "level" with
+    | .ok c, .ok n, .ok l =>
+      -- a value object: has `comp`; operator objects also have comp but their name is an operator
+      -- and they have children that are not property children
+      if (j.getObjVal? "children").toOption.isSome && (j.getObjVal? "pos").toOption.isNone then [] else [(c, n, l)]
+    | _, _, _ => []
+  self ++ kids.flatMap jsonEntries
+
+partial def jsonAll (p : Json → Bool) (j : Json) : Bool :=
+  p j && (match j.getObjVal? "children" with | .ok (.arr a) => a.all (jsonAll p) | _ => true)
+
+/-- operator objects have exactly two children (binary mode) -/
+def binaryOK (j : Json) : Bool :=
+  jsonAll (fun n =>
+    match n.getObjValAs? String "name", n.getObjVal? "children", n.getObjVal? "comp", n.getObjVal? "pos" with
+    | .ok nm, .ok (.arr a), .ok _, .error _ => !(["AND", "OR", "XOR", "bAND", "wAND"].contains nm) || a.size = 2
+    | _, _, _, _ => true) j
+
+def hasMember (k : String) (j : Json) : Bool := (j.getObjVal? k).toOption.isSome
+
+/-- C17 oracle over the 32 outputs of one statement (index = option vector) -/
+def judgeC17Group (outs : Array (Nat × Json)) : Option String := Id.run do
+  -- baseline: binary, tree properties, nothing else  (v = 2)
+  let base := outs.find? (fun p => p.1 = 2)
+  match base with
+  | none => return some "baseline missing"
+  | some (_, bj) =>
+    let baseEntries := (jsonEntries bj).mergeSort (fun a b => toString a ≤ toString b)
+    for (v, j) in outs do
+      let o := visOptsOfNat v
+      -- entries invariant under tree-property mode (flat mode turns property children into labels)
+      if !o.flat then
+        let e := (jsonEntries j).mergeSort (fun a b => toString a ≤ toString b)
+        if e ≠ baseEntries then return some s!"entries differ under option vector {v}"
+      if o.bin && !binaryOK j then return some s!"operator node without exactly two children under binary vector {v}"
+      -- dov / anno members exactly when selected
+      let anyDov := !(jsonAll (fun n => !(hasMember "dov" n)) j)
+      if anyDov ≠ o.dov then return some s!"dov members present={anyDov} but option dov={o.dov} (vector {v})"
+      let anyAnno := !(jsonAll (fun n => !(hasMember "anno" n)) j)
+      if anyAnno && !o.ann then return some s!"anno member present although annotations are off (vector {v})"
+    return none
+
+def genC17Cases (tier : String) (seed : Nat) : Array Case := Id.run do
+  let n := if tier = "thorough" then 300 else 20
+  let mut out : Array Case := #[]
+  let mut rng : Rng := ⟨UInt64.ofNat (seed * 67867967 + 23)⟩
+  for i in [0:n] do
+    let (s, rng') :=
+      if i % 2 = 0 then genC01 { suffixes := false, maxDepth := 3, maxComps := 5 } rng
+      else genSupC02 2 rng
+    rng := rng'
+    for v in [0:32] do
+      out := out.push (visCase s!"c17-{i}-{v}" (if i % 2 = 0 then "simple" else "nested") s v)
+  pure out
+
+/-- DoV: the statement total and every node label against the recurrence -/
+def genC20Cases (tier : String) (seed : Nat) : Array Case := Id.run do
+  let n := if tier = "thorough" then 1500 else 120
+  let mut out : Array Case := #[]
+  let mut rng : Rng := ⟨UInt64.ofNat (seed * 122949829 + 29)⟩
+  for i in [0:n] do
+    let (s, rng') :=
+      if i % 3 = 0 then genSupC02 3 rng
+      else genC01 { suffixes := false, maxDepth := 4, maxComps := 6 } rng
+    rng := rng'
+    -- dov on, binary, tree properties; and dov on, collapsed, flat
+    out := out.push (visCase s!"c20-{i}-a" "dov-binary" s 18)
+    out := out.push (visCase s!"c20-{i}-b" "dov-collapsed-flat" s 17)
+  pure out
+
+end Drv
